@@ -43,13 +43,19 @@ def mkarr(env, name, shape, **kw):
     return a
 
 
-def run_prologue(env, rc, d2pi, rbt, extrap, with_pressure=True, psi_sol=None):
+def run_prologue(env, rc, d2pi, rbt, extrap, with_pressure=True, psi_sol=None, arrays=None, decreasing=False):
     fn, info = prologue()
-    psi2D = mkarr(env, "psi2D", (2, 2))
-    psi1D = mkarr(env, "psi1D", (3,))
-    fpol1D = mkarr(env, "fpol1D", (3,))
-    pressure = mkarr(env, "pressure", (3,), lo=0.5, hi=9) if with_pressure else None
-    env.assume((psi1D[1] > psi1D[0]) & (psi1D[2] > psi1D[1]) if env.mode == "sym" else (psi1D[1] > psi1D[0] and psi1D[2] > psi1D[1]), "psi1D increasing")
+    if arrays is None:
+        psi2D = mkarr(env, "psi2D", (2, 2))
+        psi1D = mkarr(env, "psi1D", (3,))
+        fpol1D = mkarr(env, "fpol1D", (3,))
+        pressure = mkarr(env, "pressure", (3,), lo=0.5, hi=9) if with_pressure else None
+        if decreasing:
+            env.assume((psi1D[1] < psi1D[0]) & (psi1D[2] < psi1D[1]) if env.mode == "sym" else (psi1D[1] < psi1D[0] and psi1D[2] < psi1D[1]), "psi1D decreasing")
+        else:
+            env.assume((psi1D[1] > psi1D[0]) & (psi1D[2] > psi1D[1]) if env.mode == "sym" else (psi1D[1] > psi1D[0] and psi1D[2] > psi1D[1]), "psi1D increasing")
+    else:
+        psi2D, psi1D, fpol1D, pressure = arrays  # second construction from the caller's very same array objects
     orig = {"psi2D": psi2D.copy(), "psi1D": psi1D.copy(), "fpol1D": fpol1D.copy(), "pressure": None if pressure is None else pressure.copy()}
     given = {"psi2D": psi2D, "psi1D": psi1D, "fpol1D": fpol1D, "pressure": pressure}
     me = types.SimpleNamespace(user_options=types.SimpleNamespace(reverse_current=rc, psi_divide_twopi=d2pi, reverse_Bt=rbt, extrapolate_profiles=extrap,
@@ -77,6 +83,44 @@ def same_terms(env, a, b):
     return bool(numpy.all(a == b))
 
 
+def _mk_two_builds(rc, d2pi, rbt, decreasing):
+    """option handling + profile-spline set-up of the constructor, run twice on the caller's same arrays: the arrays keep their
+    contents and the second construction sees (and builds) exactly what the first did"""
+    import harness.c03 as c03
+
+    def build(env, arrays):
+        loc, orig, given, me, _ = run_prologue(env, rc, d2pi, rbt, False, arrays=arrays, decreasing=decreasing)
+        fn, _info = c03.spline_slice()
+        stub = types.SimpleNamespace(InterpolatedUnivariateSpline=c03.SplineStub)
+        with patched((tok, "interpolate", stub)):
+            fn.__globals__["interpolate"] = stub
+            if env.mode == "sym":
+                fn.__globals__["np"] = PROXY
+            try:
+                fn(me, loc["psi1D"], loc["fpol1D"], loc["pressure"])
+            finally:
+                fn.__globals__["np"] = numpy
+        return me, orig, given
+
+    def same_list(env, a, b):
+        return len(a) == len(b) and same_terms(env, numpy.asarray(a, dtype=object if env.mode == "sym" else float), numpy.asarray(b, dtype=object if env.mode == "sym" else float))
+
+    def body(env):
+        me1, orig, given = build(env, None)
+        env.witness("first_construction_ran")
+        for k in ("psi2D", "psi1D", "fpol1D", "pressure"):
+            env.claim("caller_array_unchanged_after_spline_setup:" + k, same_terms(env, given[k], orig[k]))
+        me2, _, given2 = build(env, (given["psi2D"], given["psi1D"], given["fpol1D"], given["pressure"]))
+        env.claim("second_construction:f_psi_sign_equal", me1.f_psi_sign == me2.f_psi_sign)
+        env.claim("second_construction:f_spline_abscissa_equal", same_list(env, me1.f_spl.x, me2.f_spl.x))
+        env.claim("second_construction:f_spline_ordinates_equal", same_list(env, me1.f_spl.y, me2.f_spl.y))
+        env.claim("second_construction:p_spline_abscissa_equal", same_list(env, me1.p_spl.x, me2.p_spl.x))
+        env.claim("second_construction:p_spline_ordinates_equal", same_list(env, me1.p_spl.y, me2.p_spl.y))
+        for k in ("psi2D", "psi1D", "fpol1D", "pressure"):
+            env.claim("caller_array_unchanged_after_second_construction:" + k, same_terms(env, given2[k], orig[k]))
+    return body
+
+
 def _mk(rc, d2pi, rbt, extrap):
     def body(env):
         loc, orig, given, me, _ = run_prologue(env, rc, d2pi, rbt, extrap, psi_sol=None if not extrap else 99.0)
@@ -95,3 +139,14 @@ for _rc in (False, True):
                                       encodes=["hypnotoad.cases.tokamak:TokamakEquilibrium.__init__"],
                                       desc="after the option handling of the constructor the caller's psi2D, psi1D, fpol1D, pressure arrays hold their original contents",
                                       bounds="reverse_current=%s psi_divide_twopi=%s reverse_Bt=%s extrapolate_profiles=%s" % (_rc, _d, _rb, _ex)))
+
+for _rc in (False, True):
+    for _d in (False, True):
+        for _rb in (False, True):
+            for _dec in (False, True):
+                OBLIGATIONS.append(Ob("two_constructions_rc%d_2pi%d_rbt%d_psi1D_%s" % (_rc, _d, _rb, "decreasing" if _dec else "increasing"), _mk_two_builds(_rc, _d, _rb, _dec),
+                                      tier="quick", family="prologue+splines",
+                                      encodes=["hypnotoad.cases.tokamak:TokamakEquilibrium.__init__"],
+                                      desc="option handling and profile-spline set-up run twice on the caller's same arrays: arrays unchanged, second construction builds the same splines",
+                                      stubs=["InterpolatedUnivariateSpline -> record of abscissa/ordinates"],
+                                      bounds="reverse_current=%s psi_divide_twopi=%s reverse_Bt=%s, psi1D %s" % (_rc, _d, _rb, "decreasing" if _dec else "increasing")))
